@@ -369,19 +369,27 @@ impl<T: UciTx, H: Heuristic, M: MoveOrder> Search<T, H, M> {
         let remaining_draft = max_ply - ply_depth_from_root;
 
         if let Some(tt_entry) = maybe_tt_entry {
+            #[cfg(inkayaku_verif)]
+            let probed = (tt_entry.depth, tt_entry.value, verif_hooks::node_type_code(&tt_entry.node_type), tt_entry.mv.value);
             if tt_entry.depth >= remaining_draft {
                 self.state.metrics.increment_transposition_hits();
                 match tt_entry.node_type {
                     Lowerbound => alpha = max(alpha, tt_entry.value),
                     Upperbound => beta = min(beta, tt_entry.value),
                     Exact => {
+                        #[cfg(inkayaku_verif)]
+                        verif_hooks::note_tt_probe(zobrist_hash, remaining_draft, alpha_original, beta_original, probed, 1, alpha, beta);
                         return tt_entry.mv.clone();
                     }
                 }
                 if alpha >= beta {
+                    #[cfg(inkayaku_verif)]
+                    verif_hooks::note_tt_probe(zobrist_hash, remaining_draft, alpha_original, beta_original, probed, 2, alpha, beta);
                     return tt_entry.mv.clone();
                 }
             }
+            #[cfg(inkayaku_verif)]
+            verif_hooks::note_tt_probe(zobrist_hash, remaining_draft, alpha_original, beta_original, probed, 0, alpha, beta);
             tt_move = tt_entry.mv.mv;
         };
 
@@ -482,7 +490,13 @@ impl<T: UciTx, H: Heuristic, M: MoveOrder> Search<T, H, M> {
                 Exact
             };
 
+            #[cfg(inkayaku_verif)]
+            verif_hooks::note_tt_store(zobrist_hash, remaining_draft, alpha_original, alpha, beta, best_value, verif_hooks::node_type_code(&node_type));
+
             self.state.transposition_table.put(zobrist_hash, TtEntry::new(result.clone(), zobrist_hash, remaining_draft, best_value, node_type));
+        } else {
+            #[cfg(inkayaku_verif)]
+            verif_hooks::note_tt_skip(zobrist_hash, remaining_draft, best_value);
         }
 
         // TODO transposition table
@@ -660,6 +674,75 @@ pub mod verif_hooks {
     /// (depth, negamax nodes so far in this go) at the end of every iteration since the last call
     pub fn take_iterations() -> Vec<(u64, u64)> {
         ITERATIONS.lock().map(|mut log| std::mem::take(&mut *log)).unwrap_or_default()
+    }
+
+    /// One decision of search_negamax about the transposition table, in the order they were taken.
+    /// kind 1 = an entry was found for `key` at a node with `draft` plies to go that was entered with the window (a0, b0):
+    /// (e_depth, e_value, e_type, e_mv_value) is the entry, outcome 0 = search on with the window (alpha, beta),
+    /// 1 = the entry's move returned as exact, 2 = returned because the adjusted window is empty;
+    /// kind 2 = the node's result `best` was stored with type e_type (alpha, beta: the window at the end of the child loop);
+    /// kind 3 = the result `best` was not stored (mate score).  Types: 0 exact, 1 lower bound, 2 upper bound.
+    #[derive(Debug, Clone, Copy, Default)]
+    pub struct TtEvent {
+        pub kind: u8,
+        pub key: u64,
+        pub draft: u64,
+        pub a0: i32,
+        pub b0: i32,
+        pub alpha: i32,
+        pub beta: i32,
+        pub e_depth: u64,
+        pub e_value: i32,
+        pub e_type: u8,
+        pub e_mv_value: i32,
+        pub outcome: u8,
+        pub best: i32,
+    }
+
+    static TT_LOG_CAP: AtomicU64 = AtomicU64::new(0);
+    static TT_DROPPED: AtomicU64 = AtomicU64::new(0);
+    static TT_LOG: Mutex<Vec<TtEvent>> = Mutex::new(Vec::new());
+
+    /// record up to `cap` table decisions from now on (0 = off, the default)
+    pub fn arm_tt_log(cap: u64) {
+        TT_LOG_CAP.store(cap, Ordering::SeqCst);
+        TT_DROPPED.store(0, Ordering::SeqCst);
+        if let Ok(mut log) = TT_LOG.lock() { log.clear(); }
+    }
+
+    /// the recorded decisions and the number of further ones that did not fit
+    pub fn take_tt_log() -> (Vec<TtEvent>, u64) {
+        let log = TT_LOG.lock().map(|mut log| std::mem::take(&mut *log)).unwrap_or_default();
+        (log, TT_DROPPED.swap(0, Ordering::SeqCst))
+    }
+
+    pub(super) fn node_type_code(t: &crate::engine::table::transposition::NodeType) -> u8 {
+        match t {
+            crate::engine::table::transposition::NodeType::Exact => 0,
+            crate::engine::table::transposition::NodeType::Lowerbound => 1,
+            crate::engine::table::transposition::NodeType::Upperbound => 2,
+        }
+    }
+
+    fn push_tt(ev: TtEvent) {
+        let cap = TT_LOG_CAP.load(Ordering::Relaxed);
+        if cap == 0 { return; }
+        if let Ok(mut log) = TT_LOG.lock() {
+            if (log.len() as u64) < cap { log.push(ev); } else { TT_DROPPED.fetch_add(1, Ordering::Relaxed); }
+        }
+    }
+
+    #[allow(clippy::too_many_arguments)]
+    pub(super) fn note_tt_probe(key: u64, draft: usize, a0: i32, b0: i32, entry: (usize, i32, u8, i32), outcome: u8, alpha: i32, beta: i32) {
+        push_tt(TtEvent { kind: 1, key, draft: draft as u64, a0, b0, alpha, beta, e_depth: entry.0 as u64, e_value: entry.1, e_type: entry.2, e_mv_value: entry.3, outcome, best: 0 });
+    }
+
+    pub(super) fn note_tt_store(key: u64, draft: usize, a0: i32, alpha: i32, beta: i32, best: i32, node_type: u8) {
+        push_tt(TtEvent { kind: 2, key, draft: draft as u64, a0, alpha, beta, best, e_type: node_type, ..TtEvent::default() });
+    }
+
+    pub(super) fn note_tt_skip(key: u64, draft: usize, best: i32) {
+        push_tt(TtEvent { kind: 3, key, draft: draft as u64, best, ..TtEvent::default() });
     }
 }
 
